@@ -67,9 +67,9 @@ package openapi3
 // Load may rely on it because every write site (CompareAndSwap below) establishes it.
 //@ trusted func (*sync.Map).Load (m, key)
 //@   pure
-//@   ensures result.0 != nil && typeof(key) == type string ==> matcherFor(result.0.(RegexMatcher), key.(string))
+//@   ensures result.0 != nil && typeof(key) == type string ==> matcherFor(result.0.(RegexMatcher), key.(string)) && compiles(key.(string))
 //@ trusted func (*sync.Map).CompareAndSwap (m, key, old, new)
-//@   requires new != nil && typeof(key) == type string ==> matcherFor(new.(RegexMatcher), key.(string))
+//@   requires new != nil && typeof(key) == type string ==> matcherFor(new.(RegexMatcher), key.(string)) && compiles(key.(string))
 
 //@ func intoGoRegexp
 //@   modifies nothing
@@ -81,18 +81,18 @@ package openapi3
 //@   modifies nothing
 //@   ensures (result.1 == nil) <==> compiles(schema.Pattern)
 //@   ensures result.1 == nil ==> result.0 != nil && matcherFor(result.0, schema.Pattern)
+//@   ensures result.1 != nil ==> typeof(result.1) == type *SchemaError
 //@   tag C01 C10
 
 //@ spec validString(s *Schema, x string) bool :=
 //@     permits(s.Type, "string")
 //@  && s.MinLength <= runes(x)
 //@  && (s.MaxLength != nil ==> runes(x) <= *s.MaxLength)
-//@  && (s.Pattern != "" ==> matches(s.Pattern, x))
+//@  && (s.Pattern != "" ==> (compiles(s.Pattern) && matches(s.Pattern, x)))
 
 //@ func (*Schema).visitJSONString
 //@   requires schema != nil && settings != nil
 //@   assuming schema.Format == "" && !settings.patternValidationDisabled && settings.regexCompiler == nil
-//@   assuming schema.Pattern != "" ==> compiles(schema.Pattern)
 //@   modifies nothing
 //@   loop 0 invariant length == runesPrefix(value, #pos) && 0 <= length && length <= #pos
 //@   ensures [verdict] (result == nil) <==> validString(schema, value)
@@ -295,7 +295,7 @@ package openapi3
 //@ axiom emptyAccepts: forall c *Schema, v any :: c != nil && isEmptySchema(c) && v != nil ==> valid(c, v)
 
 //@ spec scopeC01(s *Schema, st *schemaValidationSettings) bool :=
-//@     s.Format == "" && !st.patternValidationDisabled && st.regexCompiler == nil && (s.Pattern != "" ==> compiles(s.Pattern))
+//@     s.Format == "" && !st.patternValidationDisabled && st.regexCompiler == nil
 //@  && !st.asreq && !st.asrep && s.Discriminator == nil
 //@  && (s.Not != nil ==> s.Not.Value != nil) && (s.Items != nil ==> s.Items.Value != nil)
 //@  && resolvedProps(s)
